@@ -756,7 +756,10 @@ class Exec:
                 key = ("litcmp", n.left.id, ver, ast.unparse(rc))
                 if key not in self.labels:
                     t = self.fresh("truthy", B)
-                    self.labels.setdefault(("truthy",), []).append(t)
+                    if not (n.left.id in self.c.inputs and ver == 0):
+                        # (a declared input that was never rebound is chosen by the caller: its comparisons with
+                        # literals are free, not "unknown conditions")
+                        self.labels.setdefault(("truthy",), []).append(t)
                     self.labels[key] = t
                 t = self.labels[key]
                 neg = isinstance(n.ops[0], (ast.NotEq, ast.NotIn, ast.IsNot))
